@@ -19,7 +19,7 @@ STRS = [
     "a/b", "a.b", "b", "c", "x", "y", "3", "+5", "1_0", "3.0",
     "inf", "-Infinity", "1e999", "nan", "{x}", "a}", "${HOME}", "{{ user }}", "{0}",
     "yes", "no", "on", "off", "010", "1:30", "~", "%c", "%c%c", "%5.2f", "%x",
-    "x\n   \ny\n", "a\n\nb",
+    "x\n   \ny\n", "a\n\nb", "%99999999999d", "%.99999999999f", "%99999999999s",
 ]
 KEYS_STR = ["a", "b", "c", "x", "y", "", "0", "1", "A", "key", "path", " path", "path ", "a.b", "value", "keys", "paths", "{x}", "a}", "${HOME}", "%(k)s"]
 KEYS_OTHER = [0, 1, 2, True, False, 2.5, None, -1, 1.5, 10, -0.0, 1e300, 2**40]
